@@ -13,6 +13,27 @@ from .report import RuleResult
 from .terms import Child, Const, Fn, New, Sym, Term, Val
 
 
+def _unwrap_depends(r):
+    """(inner node, [dependency terms]) of a _DependsOn(...) wrapper term."""
+    from .terms import Seq
+    if isinstance(r, New) and r.cls.name == "_DependsOn":
+        d = r.attrs.get("depends")
+        from .interp import Coll
+        if isinstance(d, Coll):
+            d = d.elem
+            deps = list(d.args) if isinstance(d, Sym) and d.head == "oneof" else [d]
+        else:
+            deps = list(d.items) if isinstance(d, Seq) else ([d] if d is not None else [])
+        flat = []
+        for x in deps:
+            if isinstance(x, Sym) and x.head == "star" and x.args and isinstance(x.args[0], Seq):
+                flat.extend(x.args[0].items)
+            else:
+                flat.append(x)
+        return r.attrs.get("evaluatable"), flat
+    return r, []
+
+
 # ------------------------------------------------------------------ R-SO
 def rule_SO(run: Run) -> RuleResult:
     res = RuleResult("R-SO")
@@ -47,8 +68,8 @@ def rule_SO(run: Run) -> RuleResult:
                 ok_end = False
                 d_end = "a path returns a constant instead of a node"
                 continue
-            inner = r.attrs.get("evaluatable") if isinstance(r, New) and r.cls.name == "_DependsOn" else r
-            dep = r.attrs.get("depends") if isinstance(r, New) and r.cls.name == "_DependsOn" else None
+            inner, deps = _unwrap_depends(r)
+            dep = Child("dispatch") if Child("dispatch") in deps else None
             if isinstance(inner, Child) and inner.path == "lookup[*]":
                 saw_hit = True
                 idx = getattr(inner, "index", None)
@@ -120,7 +141,7 @@ def rule_SO(run: Run) -> RuleResult:
     for p in ps:
         tests = [(c[1] != c[2].startswith("unop:Not(")) for c in p.conds if COND in c[2]]
         if p.status == "ret":
-            r = p.ret
+            r, cdeps = _unwrap_depends(p.ret)
             if isinstance(r, Child) and r.path == "cases[*].1":
                 saw["case"] = True
                 if not tests or tests[-1] is not True or any(tests[:-1]):
